@@ -262,7 +262,8 @@ class JsonSchemaParser:
             else:
                 prop_schema = prop
             attname = prop_schema.get('x-var-name') or key
-            if not valid_attr(attname) or attname in attrs or hasattr(self.object_base_cls, attname):
+            if not valid_attr(attname) or attname.startswith('_') or attname in attrs \
+                    or hasattr(self.object_base_cls, attname):
                 attname = self.get_attname(attname, excludes=list(attrs) + list(properties) + dir(self.object_base_cls))
             alias = None
             if attname != key:
